@@ -40,4 +40,14 @@ PROPS = {
         residual="Same search contract as C08 (T-find).",
         assumptions=[T_VSTD, T_ARITH, T_EXTRACT, "T-find", "T-strslice: &s[a..b] on str yields the byte sub-range (vstd gives only its precondition)"],
     ),
+    'C16': dict(
+        level='proof',
+        explanation=("Verified by Verus for the VM engine: Captures::get maps slot pairs to Option<Match> exactly as documented (None past the end, None for an unset start slot, no overflow for any index), "
+                     "Captures::len is the number of slot pairs, Captures::iter / SubCaptureMatches::next yields get(0..len) in order, captures_from_pos truncates to exactly captures_len groups, "
+                     "get(0) is Some for every successful search, Regex::captures_len returns the stored group count."),
+        residual=("captures_len == 1 + number of capturing groups is U-ANALYZE's group-count postcondition plus new_options (unverified glue); capture_names / name() go through the parser's "
+                  "name map (outside reach; exercised by the bounded `search` family only); the delegated engine's group accounting is regex-automata's (assumed, T-RA)."),
+        assumptions=[T_VSTD, T_ARITH, T_EXTRACT, "T-run: vm::run returns at least prog.n_saves slots with a valid group-0 span (U-RUN postcondition)", "Regex::wf: n_groups >= 1 and 2*n_groups <= prog.n_saves (new_options / compile; U-COMPILE)",
+                     "T-RA: regex-automata Captures accessors (ARMSUB shims)"],
+    ),
 }
